@@ -100,8 +100,12 @@ class EventDataframeDataReader(AbstractDataframeDataReader):
         # [SPECIFIC] check_available_data
         df_event = df.copy(deep=True)
 
-        # Assert events columns are the only one available
-        assert (df_event.columns == [self.event_time_name, self.event_bool_name]).all()
+        # Events columns should be the only ones available
+        expected_columns = [self.event_time_name, self.event_bool_name]
+        if df_event.columns.tolist() != expected_columns:
+            raise LeaspyDataInputError(
+                f"The event columns should be exactly {expected_columns}, not {df_event.columns.tolist()}."
+            )
 
         # Round
         df_event[self.event_time_name] = round(
